@@ -67,22 +67,26 @@ Clauses(r) ==
                                  <<"CollectiveLockstep", CollectiveLockstep(r.log.ev)>> >>
       [] OTHER             -> << <<"unknown-record", FALSE>> >>
 
-Failed(r) == IF Has(r, "e") THEN (IF r.e = "End" THEN <<>> ELSE <<"recorder:" \o r.e>>)
-             ELSE IF r.k = "msgs" THEN FailedOf(Clauses(r))
-             ELSE IF ~WFCase(r) THEN <<"malformed-case">>
-             ELSE FailedOf(Clauses(r))
-
 \* structural conformance with the transcription (drift only, never a verdict)
-Drifted(r) ==
+DriftedRec(r) ==
     IF Has(r, "e") THEN FALSE
     ELSE CASE r.k = "pattern" -> r.pat # PatternRun(r.np, r.cp, [q \in PRanks(r.np) |-> r.D.rem[q + 1].col])
            [] r.k = "build"   -> r.D # SplitRun(r.A, r.np, r.rp, r.cp)
            [] OTHER -> FALSE
 
+\* C11MODE=drift turns the same machinery into the drift pass (recorded pattern / split differ from
+\* the transcription's storage although the predicates hold): informational, never a verdict
+Mode == IF "C11MODE" \in DOMAIN IOEnv THEN IOEnv.C11MODE ELSE "judge"
+Failed(r) == IF Mode = "drift" THEN (IF DriftedRec(r) THEN <<"storage-differs-from-transcription">> ELSE <<>>)
+             ELSE IF Has(r, "e") THEN (IF r.e = "End" THEN <<>> ELSE <<"recorder:" \o r.e>>)
+             ELSE IF r.k = "msgs" THEN FailedOf(Clauses(r))
+             ELSE IF ~WFCase(r) THEN <<"malformed-case">>
+             ELSE FailedOf(Clauses(r))
+
 TInit == l = 1 /\ bad = <<>> /\ drift = 0
 TNext == /\ l <= NLog /\ l' = l + 1
          /\ LET f == Failed(Log[l])
             IN  /\ bad' = IF f = <<>> THEN bad ELSE Append(bad, <<l, f>>)
-                /\ drift' = IF f = <<>> /\ Drifted(Log[l]) THEN drift + 1 ELSE drift
-Verdict == (l = NLog + 1) => VerdictLine(l, bad) /\ PrintT(<<"DRIFT", drift>>)
+                /\ drift' = drift
+Verdict == (l = NLog + 1) => VerdictLine(l, bad)
 =============================================================================
